@@ -238,7 +238,7 @@ Definition step_opt (s : st) (a : act) : option st :=
               if cs then
                 if fin then Some (finish_op s1 (a - 1) (Some (MData (cur s))))
                 else Some (s1 <| op := SChunkIdle false (a - 1) |>)
-              else Some (finish_op s1 (a - 1) (Some (MData [])))
+              else Some (finish_op s1 (a - 1) (Some (MData (cur s))))
             else
               let at_ := N.to_nat (N.min (N.min (len rest) (chunk (cfg s))) a) in
               let c := firstn at_ rest in
